@@ -59,7 +59,26 @@ def documents():
 
     def bad3():
         return mkc("dataset", None, [party("c1"), mkc("contact", None, [ref("c1")]), mkc("publisher", None, [ref("nope")])]), {}
-    return [("a reference as the only child", d1, "ok"), ("a reference between siblings, below the top level", d2, "ok"),
+    def d6():
+        # two references under one parent; the first referenced element has three children, the second carries an id on a child
+        c, e = party("c1"), mkc("creator", None, [mkc("organizationName", "O2"), mkc("address", None, [mkc("city", "X")], {"id": "adr"})], {"id": "c2"})
+        head, tail = mkc("title", "p"), mkc("funding", "f")
+        both = mkc("project", None, [head, ref("c1"), ref("c2"), tail])
+        return mkc("dataset", None, [c, e, both]), {"source": [c, e], "dest": [(both, [head], None), (both, None, [tail])], "joint": (both, [head], [c, e], [tail])}
+
+    def bad4():
+        inner = mkc("address", None, [mkc("city", "X")], {"id": "c1"})
+        c = party("c1")
+        c["_children"].append(inner)
+        inner["_parent"] = c
+        return mkc("dataset", None, [c, mkc("contact", None, [ref("c1")])]), {}
+
+    def bad5():
+        return mkc("dataset", None, [party("c1"), mkc("creator", None, [mkc("organizationName", "A")], {"id": "z"}), mkc("creator", None, [mkc("organizationName", "B")], {"id": "z"}),
+                                     mkc("contact", None, [ref("c1")])]), {}
+    return [("two references under one parent, the second to an element whose child has an id", d6, "ok"),
+            ("an id shared by an element and its own descendant", bad4, "ValueError"), ("an id used twice that no reference names", bad5, "ValueError"),
+            ("a reference as the only child", d1, "ok"), ("a reference between siblings, below the top level", d2, "ok"),
             ("two references to one element", d3, "ok"), ("two references to two elements, in the other order", d4, "ok"),
             ("a document without references", d5, "ok"), ("an id used twice", bad1, "ValueError"), ("a reference that names no id", bad2, "ValueError"),
             ("a dangling reference behind a resolvable one", bad3, "ValueError")]
@@ -107,7 +126,22 @@ def rule_r6(ctx, rep):
             for (s, fz) in zip(roles["source"], src_before):
                 if why is None and freeze(s) != fz:
                     why = f"changes the referenced element {s['_name']}"
-            for (dest, pre, post), s in zip(roles["dest"], roles["source"]):
+            if roles.get("joint") and why is None:
+                dest, pre, srcs, post = roles["joint"]
+                want_names = [c["_name"] for c in pre] + [c["_name"] for s_ in srcs for c in s_["_children"]] + [c["_name"] for c in post]
+                got_names = [c["_name"] for c in dest["_children"]]
+                if got_names != want_names:
+                    why = (f"leaves {dest['_name']} with the children ({', '.join(got_names)}); the copies belong where each references node was: "
+                           f"({', '.join(want_names)})")
+                else:
+                    k = len(pre)
+                    for s_ in srcs:
+                        for orig in s_["_children"]:
+                            d = diff(orig, dest["_children"][k])
+                            if d and why is None:
+                                why = f"puts a copy into {dest['_name']} that differs from the referenced child -- {d}"
+                            k += 1
+            for (dest, pre, post), s in zip(roles["dest"] if not roles.get("joint") else [], roles["source"]):
                 if why is not None:
                     break
                 kids = dest["_children"]
